@@ -62,6 +62,12 @@ def symrange(*a):
 
 def symisinstance(obj, cls):
     """isinstance that lets symbolic scalars pass the numeric type checks chi performs"""
+    # the names int / float are re-bound to shims in the shadow modules: map them back to the real types
+    back = {symint: builtins.int, symfloat: builtins.float}
+    if isinstance(cls, tuple):
+        cls = tuple(back.get(c, c) for c in cls)
+    else:
+        cls = back.get(cls, cls)
     if isinstance(obj, S):
         cl = cls if isinstance(cls, tuple) else (cls,)
         if obj.e.is_integer and any(c in (int, _np.integer) for c in cl):
